@@ -484,6 +484,98 @@ def case_init(tag, pad=3, funcs=0, sameline=False):
     return [m.cmd(), "load o1 %s/m" % d, exp]
 
 
+def case_init_big(tag, nlines=6, nterms=24, pad=2, prefill=0):
+    """an initialiser block of several hundred bytes: `nlines` initialised globals with long expressions in front of the
+    failing one (its noted offset is far beyond 255)"""
+    d = "/c18/%s" % tag
+    m = Src("%s/m.c" % d)
+    m.text("int x_;\nint z_;\nvoid set_oid(string s) {}\nint h0(int k) {\n  x_ = k;\n  return x_;\n}\n")
+    # `prefill` filler statements (8 bytes of code each) in functions in front: with about 470 / 990 / 2010 of them the
+    # function code ends just below 4096 / 8192 / 16384 bytes, so appending the initialiser block makes the program
+    # block grow (and move) inside i_generate___INIT
+    k = 0
+    while prefill > 0:
+        n = min(180, prefill)
+        k += 1
+        m.text("int hp%d(int k) {\n" % k)
+        m.pad("s", n)
+        m.text("  return k;\n}\n")
+        prefill -= n
+    m.pad("n", pad)
+    for i in range(nlines):
+        m.text("int a%d_ = %s;\n" % (i, " + ".join("(x_ * %d)" % (j % 50 + 2) for j in range(nterms))))
+        if i % 2:
+            m.pad("c", 1)
+    ln = m.line
+    m.text("mixed g_ = 10 / z_;\nint b_ = 3 + x_;\nint go() { return 1; }\n")
+    p, o = "%s/m.c" % d.lstrip("/"), "%s/m" % d
+    exp = "expect kind=plain phase=load file=%s lines=%d-%d program=%s object=%s trace=#global_init#@%s@%s@%s@%d-%d" % (
+        p, ln, ln, p, o, p, o, p, ln, ln)
+    return [m.cmd(), "load o1 %s/m" % d, exp]
+
+
+def case_after_fatal_in_include(tag, depth=2, rng=None):
+    """the lexer gives up INSIDE a nested include (comment that is never closed: a fatal lexer error, the include stack is
+    not unwound by the parser), then a good program is compiled in the same driver and fails at run time"""
+    d = "/c18/%s" % tag
+    b = Src("%s/bad.c" % d)
+    b.text("int x_;\nvoid set_oid(string s) {}\nint h0(int k) {\n  x_ = k;\n  return x_;\n}\n")
+    files = [b] + [Src("%s/f%d.h" % (d, i)) for i in range(1, depth + 1)]
+    for i, src in enumerate(files):
+        if i:
+            src.text("// level %d\n" % i)
+        src.pad("n", rng.range(0, 9) if rng else 2)
+        if i < depth:
+            src.text('#include "f%d.h"\n' % (i + 1))
+            src.text("int after%d(int k) { return k; }\n" % i)
+    last = files[depth]
+    last.text("int inner(int k) { return k; }\n")
+    cl = last.line
+    last.text("/* this comment is never closed\nint lost(int k) { return k; }\n")
+    m = Src("%s/m.c" % d)
+    m.text("int x_;\nvoid set_oid(string s) {}\n")
+    m.pad("n", rng.range(0, 20) if rng else 4)
+    m.text('#include "g.h"\n')
+    g = Src("%s/g.h" % d)
+    g.text("// g\nint gf(int k) {\n")
+    gl = g.line
+    g.text("  x_ = 10 / k;\n  return x_;\n}\n")
+    ml = m.line
+    m.text("int go(int k) { return gf(k) + 1; }\n")
+    p, o = "%s/m.c" % d.lstrip("/"), "%s/m" % d
+    fr = [("go", p, o, p, ml, ml), ("gf", p, o, g.name, gl, gl)]
+    exp = "expect kind=plain file=%s lines=%d-%d program=%s object=%s trace=%s" % (
+        g.name, gl, gl, p, o, "|".join("%s@%s@%s@%s@%d-%d" % f for f in fr))
+    return [f.cmd() for f in files] + [m.cmd(), g.cmd(), "load o4 %s/bad" % d,
+            "expectce file=%s line=-1 text=End_of_file_in_a_comment" % last.name,
+            "load o1 %s/m" % d, "apply o1 go", exp, "dump o1"]
+
+
+def case_after_failed_compile(tag, rng=None, nfun=2):
+    """a program that does not compile (its error is behind complete functions, so code and line runs had been generated)
+    followed, in the same driver, by a good program with a runtime error: nothing of the abandoned compilation may leak"""
+    d = "/c18/%s" % tag
+    b = Src("%s/bad.c" % d)
+    b.text("int x_;\nvoid set_oid(string s) {}\n")
+    for i in range(nfun):
+        b.text("int h%d(int k) {\n" % i)
+        b.pad("s", rng.range(1, 30) if rng else 7)
+        b.text("  return k + %d;\n}\n" % i)
+    bl = b.line + 1
+    b.text("int bad_(int k) {\n  zz_undefined_ = k;\n  return k;\n}\n")
+    m = Src("%s/m.c" % d)
+    m.text("int x_;\nvoid set_oid(string s) {}\n")
+    m.pad("n", rng.range(0, 20) if rng else 3)
+    m.text("int go(int k) {\n")
+    m.pad("s", rng.range(0, 12) if rng else 2)
+    ln = m.line
+    m.text("  x_ = 10 / k;\n  return 0;\n}\n")
+    p, o = "%s/m.c" % d.lstrip("/"), "%s/m" % d
+    exp = "expect kind=plain file=%s lines=%d-%d program=%s object=%s trace=go@%s@%s@%s@%d-%d" % (p, ln, ln, p, o, p, o, p, ln, ln)
+    return [b.cmd(), m.cmd(), "load o4 %s/bad" % d, "expectce file=%s line=%d text=Undefined_variable_'zz_undefined_'" % (b.name, bl),
+            "load o1 %s/m" % d, "apply o1 go", exp, "dump o1"]
+
+
 def case_init_pair(tag, pad=3):
     """two programs compiled one after the other whose only initialisers are on the SAME line: the line bookkeeping of
     the initialiser block must start afresh for every compilation"""
@@ -718,6 +810,124 @@ def case_longname(tag, n=250, include=False):
     return [f.cmd() for f in files] + ["load o1 %s" % o, "apply o1 go", exp, "dump o1"]
 
 
+def case_linecount(tag, total, in_include=0, fail_early=False):
+    """a compilation unit whose LAST absolute line (the empty one behind the final newline) is `total`: absolute lines are
+    16 bit, so the compiler accepts the unit up to total = 65535 and refuses it beyond; `in_include` of the lines are in a
+    header included from line 4 of the main file; the failing statement is at the very end (or, `fail_early`, in front
+    of the padding)"""
+    d = "/c18/%s" % tag
+    m = Src("%s/m.c" % d)
+    m.text("int x_;\nvoid set_oid(string s) {}\n")
+    files = [m]
+    used = 0
+    if in_include:
+        h = Src("%s/h.h" % d)
+        h.text("// h\n")
+        h.pad("n", in_include - 2)            # the header contributes in_include absolute lines (its last, empty one included)
+        m.text('#include "h.h"\n')
+        files.append(h)
+        used = in_include
+    body = "int go(int k) {\n  x_ = 10 / k;\n  return 0;\n}\n"
+    if fail_early:
+        ln = m.line + 1
+        m.text(body)
+    # m.line = line the next character goes to = absolute lines of the main file so far + 1
+    rest = total - used - (m.line - 1) - (0 if fail_early else 4) - 1
+    m.pad("n", rest)
+    if not fail_early:
+        ln = m.line + 1
+        m.text(body)
+    assert used + m.line == total, (used, m.line, total)
+    p, o = "%s/m.c" % d.lstrip("/"), "%s/m" % d
+    if total > 65535:
+        return [f.cmd() for f in files] + ["load o1 %s/m" % d,
+                "expectce file=%s line=-1 text=Program_too_large:_more_than_65535_lines" % p]
+    exp = "expect kind=plain file=%s lines=%d-%d program=%s object=%s trace=go@%s@%s@%s@%d-%d" % (p, ln, ln, p, o, p, o, p, ln, ln)
+    return [f.cmd() for f in files] + ["load o1 %s/m" % d, "apply o1 go", exp, "dump o1"]
+
+
+def case_include_history(tag, nfill, positions, failing, rng=None):
+    """a template header t.h included several times from the main file, at the given positions of a history of `nfill`
+    other (distinct, one-line) headers: every re-inclusion has to find the id of the EARLIER inclusion among the
+    segments written so far — wherever those lie (first, middle, last entries of A_FILE_INFO) — and get an id of its own;
+    the failing statement is in copy number `failing`"""
+    d = "/c18/%s" % tag
+    p, o = "%s/m.c" % d.lstrip("/"), "%s/m" % d
+    m = Src("%s/m.c" % d)
+    m.text("int x_;\nvoid set_oid(string s) {}\n")
+    t = Src("%s/t.h" % d)
+    t.text("// t\n")
+    if rng:
+        t.pad("n", rng.range(0, 12))
+    t.text("int FN(int k) {\n")
+    tl = t.line
+    t.text("  x_ = 10 / k;\n  return x_;\n}\n")
+    files = [m, t]
+    copy = 0
+    names = []
+    for i in range(nfill + 1):
+        while copy < len(positions) and positions[copy] == i:
+            fn = "t%d" % copy
+            names.append(fn)
+            m.text('#define FN %s\n#include "t.h"\n#undef FN\n' % fn)
+            copy += 1
+        if i < nfill:
+            e = Src("%s/e%d.h" % (d, i))
+            e.text("// filler %d\n" % i)
+            files.append(e)
+            m.text('#include "e%d.h"\n' % i)
+    gl = m.line
+    m.text("int go() { return %s; }\n" % " + ".join("%s(%d)" % (n, 0 if j == failing else 1) for j, n in enumerate(names)))
+    frames = [("go", p, o, p, gl, gl), (names[failing], p, o, t.name, tl, tl)]
+    exp = "expect kind=plain file=%s lines=%d-%d program=%s object=%s trace=%s" % (
+        t.name, tl, tl, p, o, "|".join("%s@%s@%s@%s@%d-%d" % f for f in frames))
+    return [f.cmd() for f in files] + ["load o1 %s/m" % d, "apply o1 go", "dump o1", exp]
+
+
+DIAGS = {
+    # kind: (source text of the offending line(s), first words of the message, line of the report relative to the first line)
+    "undefvar": ("int bad_(int k) {\n  zz_undefined_ = k;\n  return k;\n}\n", "Undefined_variable_'zz_undefined_'", 1),
+    "syntax": ("int bad_(int k) {\n  x_ = = k;\n  return k;\n}\n", "syntax_error", 1),
+    "noinc": ('#include "c18_no_such_header.h"\n', "Cannot_#include_c18_no_such_header.h", 0),
+    "badinc": ("#include c18_nonsense\n", "Missing_leading", 0),
+    "undeffun": ("int bad_(int k) {\n  return zz_undefined_fn_(k);\n}\n", "Undefined_function_zz_undefined_fn_", 1),
+    "badtype": ('int bad_(int k) {\n  string s_;\n  s_ = "a";\n  return s_ - ({ 1 });\n}\n', "Invalid_types_to_'-'", 3),
+    "escape": ('#pragma warnings\nint bad_(int k) {\n  return strlen("a\\qb") + k;\n}\n', "Warning:_Unknown_\\_escape", 2),
+    "endif": ("#endif\n", "Unexpected_#endif", 0),
+}
+
+
+def case_diag(tag, kind, where=0, rng=None):
+    """one compile-time diagnostic at a known line of the main file (where = 0) or of an include at nesting depth
+    `where`, the parent files resumed behind it; the report must name that file and that line"""
+    d = "/c18/%s" % tag
+    text, msg, rel = DIAGS[kind]
+    pad = (lambda src: src.pad(rng.choice(["n", "c"]), rng.range(0, 40))) if rng else (lambda src: src.pad("n", 2))
+    m = Src("%s/m.c" % d)
+    m.text("int x_;\nvoid set_oid(string s) {}\n")
+    files = [m] + [Src("%s/d%d.h" % (d, i)) for i in range(1, where + 1)]
+    for i, src in enumerate(files):
+        if i:
+            src.text("// level %d\n" % i)
+        pad(src)
+        if i < where:
+            src.text('#include "d%d.h"\n' % (i + 1))
+            pad(src)
+    src = files[where]
+    line = src.line + rel
+    src.text(text)
+    for i, f in enumerate(files):
+        pad(f)
+        f.text("int ok%d(int k) { return k; }\n" % i)
+    m.text("int go(int k) { return k; }\n")
+    warn = msg.startswith("Warning")
+    out = [f.cmd() for f in files] + ["load o1 %s/m" % d, "expectce file=%s line=%d text=%s" % (src.name, line, msg)]
+    if warn:
+        # a warning does not stop the compilation: keep the case in the compile-diagnostic form by not recording a runtime error
+        pass
+    return out
+
+
 def case_toolarge(tag, nfun=45, nstmt=190):
     """more than 65535 bytes of code (nfun functions of nstmt filler statements, 8 bytes each): function addresses,
     program_size and the offsets find_line works with are 16 bit, so the compiler has to refuse the program"""
@@ -771,7 +981,7 @@ class C18(Prop):
     id = "C18"
     no_shrink = True   # cases are reported exactly as generated (lines depend on each other)
     title = "Runtime errors are reported at the right file and line with a correct trace"
-    lean_modules = ["NV.C18.Props", "NV.C18.PropsCompile", "NV.C18.PropsDump", "NV.C18.PropsOracle", "NV.C18.PropsInit", "NV.C18.PropsLex", "NV.C18.PropsBound", "NV.C18.Witness", "NV.C18.SourceTexts",
+    lean_modules = ["NV.C18.Props", "NV.C18.PropsCompile", "NV.C18.PropsDump", "NV.C18.PropsOracle", "NV.C18.PropsInit", "NV.C18.PropsLex", "NV.C18.PropsBound", "NV.C18.PropsAccept", "NV.C18.PropsJ5", "NV.C18.PropsNode", "NV.C18.Witness", "NV.C18.SourceTexts",
                     "NV.C18.SourceTexts2"]
     theorems = ["NV.C18.line_roundtrip_raw", "NV.C18.line_roundtrip", "NV.C18.long_statement_ok",
                 "NV.C18.file_roundtrip", "NV.C18.file_roundtrip_ids", "NV.C18.file_roundtrip_partial",
@@ -782,7 +992,7 @@ class C18(Prop):
                 "NV.C18.compile_roundtrip", "NV.C18.abs_pos", "NV.C18.abs_mono",
                 "NV.C18.frame_kinds_exhaustive", "NV.C18.dump_trace_matches_svalue_trace", "NV.C18.dtText_spec",
                 "NV.C18.locText_of_ok", "NV.C18.dump_trace_args_lines", "NV.C18.dump_trace_ret_heart_beat",
-                "NV.C18.lex_push_agrees", "NV.C18.lex_pop_agrees", "NV.C18.lex_final_agrees", "NV.C18.node_line_agrees", "NV.C18.translate_eq_positions", "NV.C18.init_block_roundtrip", "NV.C18.placeNotes_runFrom", "NV.C18.findRun_append_out", "NV.C18.file_roundtrip_global_include", "NV.C18.scan_unbounded", "NV.C18.scan_bound_harmless", "NV.C18.size_field_exact", "NV.C18.psizeRejects_iff", "NV.C18.pass2_agrees", "NV.C18.source_statements_agree2"]
+                "NV.C18.lex_push_agrees", "NV.C18.lex_pop_agrees", "NV.C18.lex_final_agrees", "NV.C18.node_line_agrees", "NV.C18.translate_eq_positions", "NV.C18.init_block_roundtrip", "NV.C18.placeNotes_runFrom", "NV.C18.findRun_append_out", "NV.C18.file_roundtrip_global_include", "NV.C18.compile_roundtrip_accepted", "NV.C18.lines_accepted_fit", "NV.C18.code_accepted_fit", "NV.C18.file_id_scan_agrees", "NV.C18.fileIdFor_uses_scan", "NV.C18.model_never_reuses_ids", "NV.C18.model_never_reuses_ids_N", "NV.C18.node_line_pending", "NV.C18.node_line_noted", "NV.C18.scan_unbounded", "NV.C18.scan_bound_harmless", "NV.C18.size_field_exact", "NV.C18.psizeRejects_iff", "NV.C18.pass2_agrees", "NV.C18.source_statements_agree2"]
     witness_theorems = ["NV.C18.file_roundtrip_Full_false", "NV.C18.line_roundtrip_Full_false",
                         "NV.C18.reinclude_wrong", "NV.C18.reinclude_repaired", "NV.C18.wide_wrong", "NV.C18.signed_short_wrong",
                         "NV.C18.init_block_only_noted", "NV.C18.init_replay", "NV.C18.heart_beat_ret_before_fix", "NV.C18.bounded_scan_fails_above_64k"]
@@ -794,7 +1004,9 @@ class C18(Prop):
               ("nodeLineBits", "8*sizeof(((parse_node_t*)0)->line)"),
               ("fileInfoBits", "8*sizeof(*((program_t*)0)->file_info)"),
               ("lineInfoLenBits", "8*sizeof(*((program_t*)0)->line_info)"),
-              ("aInitLines", "A_INIT_LINES")]
+              ("aInitLines", "A_INIT_LINES"), ("ushrtMax", "USHRT_MAX"),
+              ("szUShort", "sizeof(unsigned short)"), ("szShort", "sizeof(short)"), ("szPtr", "sizeof(void *)"),
+              ("szInt", "sizeof(int)"), ("szChar", "sizeof(char)")]
     const_headers = ["src/interpret.h", "lpc/program.h", "lpc/compiler.h", "lpc/program/parse_trees.h"]
     quick_n = 500
     thorough_n = 5000
@@ -809,7 +1021,10 @@ class C18(Prop):
                   "test, translate_absolute_line both passes, push/pop_control_stack, get_svalue_trace, dump_trace text, "
                   "return value and argument-line structure): compile_roundtrip (for every lexer event sequence and every "
                   "emission sequence in code order, find_line on the finished tables returns the file and line of the "
-                  "lexer position of the parse node, every offset), line_roundtrip, long_statement_ok, init_block_roundtrip, "
+                  "lexer position of the parse node, every offset) and compile_roundtrip_accepted (the same for EVERY unit "
+                  "the compiler accepts: the two size tests of epilog are transcribed, no bound on lines or code bytes is "
+                  "assumed), model_never_reuses_ids (oracle clause J5 on the model's events), file_id_scan_agrees (the scan "
+                  "of program_file_id with its transcribed start, step, sizeof divisor and cast), line_roundtrip, long_statement_ok, init_block_roundtrip, "
                   "file_roundtrip for all include layouts (repeated and recursive includes, global include), "
                   "translate_eq_positions (decoder = oracle positions on every line of every table), trace_order, "
                   "apply_frame_named, dump_trace_matches_svalue_trace; tied to the C code on every run: loop guards, "
@@ -821,9 +1036,9 @@ class C18(Prop):
                   "log; the specification oracle compares every report (mapping, log text, compile-time diagnostics) with "
                   "the generator's record of where the statement is")
     level_note = ("trusted: Lean kernel; extract.py and the regex transcription in props/c18.py; the correspondence harness "
-                  "(differential, generated programs only); proved with size conditions only: absolute lines, program "
-                  "strings and code bytes < 2^16 (witness beyond 2^16 lines: open finding C18-F3; beyond 2^16 code bytes the "
-                  "compiler now refuses the program, fix C18-F6); which line the code generator attributes to a parse node "
+                  "(differential, generated programs only); the only size condition left in the top statement is "
+                  "fewer than 2^16 program strings (units with more than 65535 lines or bytes of code are refused by the "
+                  "compiler: fixes C18-F3, C18-F6, tests transcribed); which line the code generator attributes to a parse node "
                   "and the line the compiler reports a diagnostic at are compared with the generator's record, not proved; "
                   "the oracle clauses over strings (J1, J7, J8) are checked on real runs, their data-level counterparts are "
                   "proved")
@@ -850,7 +1065,6 @@ class C18(Prop):
                    "(svalue_to_string); only which lines are printed for which frame is modelled",
                    "an error raised while the driver itself prints a trace (in_error path) and fatal(); errors inside the master's "
                    "error handler and the heart-beat switch-off are observed only (no crash, report counts)",
-                   "more than 65535 absolute lines in one compilation unit (open finding C18-F3)",
                    "the text of compile-time messages other than file and line (J8 fixes the first words only)"]
 
     LEAN_OP = {">": ">", "<": "<", ">=": "≥", "<=": "≤", "==": "=", "!=": "≠"}
@@ -992,6 +1206,60 @@ class C18(Prop):
                 if re.match(r"^next_node->line = \(short\)\((.+)\)$", st["srcNodeLine"][0]) else "?", "parse_trees:new_node"),
         ]
 
+    def accept_tests(self):
+        """epilog(): `if (... && A + B + 8 > USHRT_MAX) yyerror ("Program too large: ... bytes of code")` and
+        `if (... && current_line_base + current_line > USHRT_MAX) yyerror ("Program too large: ... lines")`"""
+        comp = open(os.path.join(E.REPO, "lib/lpc/compiler.c")).read()
+        eb = self._body(comp, "static program_t *epilog ()", "epilog")
+        ops = r"(<=|>=|==|!=|<|>)"
+        mc = re.search(r"mem_block\[A_PROGRAM\]\.current_size\s*\+\s*mem_block\[A_INITIALIZER\]\.current_size\s*\+\s*(\d+)\s*%s\s*USHRT_MAX\s*\)\s*yyerror\s*\(\s*\"Program too large" % ops, eb)
+        ml = re.search(r"current_line_base\s*\+\s*current_line\s*%s\s*USHRT_MAX\s*\)\s*yyerror\s*\(\s*\"Program too large" % ops, eb)
+        if not mc:
+            raise X.TieBroken("epilog:code-size", "the refusal of a program with more than 65535 bytes of code no longer has a known shape")
+        if not ml:
+            raise X.TieBroken("epilog:line-count", "the refusal of a unit with more than 65535 lines no longer has a known shape")
+        return ["/-- C (lib/lpc/compiler.c, epilog): `%s …` — is a unit with `p` bytes of function code and `i` bytes of initialiser code refused? -/" % mc.group(0)[:90].replace("\n", " "),
+                "def codeRefused (p : Nat) (i : Nat) : Bool := decide (p + i + %s %s ushrtMax)" % (mc.group(1), self.LEAN_OP[mc.group(2)]),
+                "/-- C (lib/lpc/compiler.c, epilog): `%s …` — is a unit refused whose lexer ends with these counters? -/" % ml.group(0)[:70].replace("\n", " "),
+                "def linesRefused (base : Int) (cur : Int) : Bool := decide (base + cur %s (ushrtMax : Int))" % self.LEAN_OP[ml.group(1)]]
+
+    SIZEOF = {"unsigned short": "szUShort", "short": "szShort", "int": "szInt", "char": "szChar", "unsigned char": "szChar"}
+
+    def fileid_scan(self):
+        """program_file_id (or a helper of it): `n = mem_block[A_FILE_INFO].current_size / sizeof (X); for (i = A; i < n; i += S)
+        if (fi[i] == (CAST) file_id)` -> start index, step, what `sizeof (X)` is (a type, `*fi`, or — wrongly — the pointer
+        `fi`), width of the cast"""
+        comp = open(os.path.join(E.REPO, "lib/lpc/compiler.c")).read()
+        i = comp.find("static short store_prog_string_again")
+        j = comp.find("\nint add_program_file (")
+        if i < 0 or j < 0:
+            raise X.TieBroken("program_file_id", "region store_prog_string_again .. add_program_file not found")
+        reg = re.sub(r"(?s)/\*.*?\*/", "", comp[i:j])
+        mn = re.search(r"n\s*=\s*mem_block\[A_FILE_INFO\]\.current_size\s*/\s*sizeof\s*\(\s*([^)]+?)\s*\)", reg)
+        mf = re.search(r"for\s*\(\s*i\s*=\s*(\d+)\s*;\s*i\s*(<|<=)\s*n\s*;\s*i\s*\+=\s*(\d+)\s*\)\s*\{?\s*if\s*\(\s*fi\s*\[\s*i\s*\]\s*==\s*\(\s*([a-z ]+?)\s*\)\s*file_id\s*\)", reg)
+        md = re.search(r"([a-z ]+?)\s*\*\s*fi\s*=", reg)
+        if not (mn and mf and md):
+            raise X.TieBroken("program_file_id:scan", "the scan of A_FILE_INFO for a used file id no longer has the shape n = size / sizeof (X); for (i = A; i < n; i += S) if (fi[i] == (T) file_id)")
+        x = mn.group(1).strip()
+        elem = md.group(1).strip()
+        if x in self.SIZEOF:
+            div = self.SIZEOF[x]
+        elif x == "*fi" and elem in self.SIZEOF:
+            div = self.SIZEOF[elem]
+        elif x == "fi":
+            div = "szPtr"
+        else:
+            raise X.TieBroken("program_file_id:scan", "sizeof (%s) not understood" % x)
+        if mf.group(4).strip() not in self.SIZEOF or elem not in self.SIZEOF:
+            raise X.TieBroken("program_file_id:scan", "cast / element type not understood")
+        return ["/-- C (lib/lpc/compiler.c, program_file_id): `%s` and `%s` -/" % (mn.group(0), re.sub(r"\s+", " ", mf.group(0))),
+                "def fidScanStart : Nat := %s" % mf.group(1),
+                "def fidScanIncl : Bool := %s" % ("true" if mf.group(2) == "<=" else "false"),
+                "def fidScanStep : Nat := %s" % mf.group(3),
+                "def fidEntries (bytes : Nat) : Nat := bytes / %s" % div,
+                "def fidElemBytes : Nat := %s" % self.SIZEOF[elem],
+                "def fidCastMod : Nat := 2 ^ (8 * %s)" % self.SIZEOF[mf.group(4).strip()]]
+
     def source_statements2(self):
         """regions tied in the extend round (frozen copies in NV/C18/SourceTexts2.lean)"""
         R = lambda *p: open(os.path.join(E.REPO, *p)).read()
@@ -1080,6 +1348,10 @@ class C18(Prop):
         out.append("def splitBound : Nat := %s" % m.group(2))
         out.append("def splitLen : Nat := %s" % m2[0])
         out.append("def splitDec : Nat := %s" % m3.group(1))
+        out.append("\n/-! the size tests of epilog(): which compilation units are refused -/")
+        out += self.accept_tests()
+        out.append("\n/-! the scan of A_FILE_INFO for a file id that is already in use (program_file_id) -/")
+        out += self.fileid_scan()
         out.append("\n/-! the lexer's line arithmetic, transcribed statement by statement -/")
         out += self.lexer_arithmetic()
         out.append("\n/-! the statements the model was written from, as they are in the source now -/")
@@ -1148,13 +1420,38 @@ class C18(Prop):
                                   {"fail": "div", "origin": "generated", "long": 1}))
         for i in range(n):
             tag = "g%d_%d" % (rng.below(100000), i)
+            if rng.chance(1, 25):
+                nf = rng.range(1, 45)
+                pos = sorted(rng.range(0, nf) for _ in range(rng.range(2, 5)))
+                out.append(E.Case("g%d" % i, (["mode ginc"] if rng.chance(1, 3) else []) + case_include_history(tag, nf, pos, rng.range(1, len(pos) - 1), rng),
+                                  {"fail": "reinclude", "origin": "generated"}))
+                continue
             if rng.chance(1, 14):
                 v = rng.choice(["again", "self", "back"])
                 out.append(E.Case("g%d" % i, case_multi_include(tag, v, rng), {"fail": "reinclude", "origin": "generated"}))
                 continue
+            if rng.chance(1, 60):
+                tot = rng.choice([65533, 65534, 65535, 65536, 65537, 65600, 131072 + rng.range(0, 40)])
+                out.append(E.Case("g%d" % i, case_linecount(tag, tot, in_include=rng.choice([0, 0, 7, 20000, 65000]), fail_early=rng.chance(1, 3)),
+                                  {"fail": "div" if tot <= 65535 else "compile-error", "origin": "generated", "maxline": tot}))
+                continue
+            if rng.chance(1, 30):
+                k = rng.choice(sorted(DIAGS))
+                out.append(E.Case("g%d" % i, (["mode ginc"] if rng.chance(1, 3) else []) + case_diag(tag, k, rng.range(0, 3), rng),
+                                  {"fail": "compile-error", "origin": "generated"}))
+                continue
             if rng.chance(1, 40):
                 lines = case_overlap(tag, rng.choice(["main", "inc"]), rng.range(0, 400))
                 out.append(E.Case("g%d" % i, (["mode ginc"] if rng.chance(1, 3) else []) + lines, {"fail": "compile-error", "origin": "generated"}))
+                continue
+            if rng.chance(1, 40):
+                out.append(E.Case("g%d" % i, case_after_failed_compile(tag, rng, rng.range(1, 4)) if rng.chance(1, 2) else
+                                  case_after_fatal_in_include(tag, rng.range(1, 4), rng), {"fail": "div", "origin": "generated"}))
+                continue
+            if rng.chance(1, 40):
+                out.append(E.Case("g%d" % i, case_init_big(tag, rng.range(2, 10), rng.range(8, 45), rng.range(0, 100),
+                                                           prefill=rng.choice([0, 0, 440 + rng.range(0, 60), 960 + rng.range(0, 60)])),
+                                  {"fail": "init", "origin": "generated"}))
                 continue
             if rng.chance(1, 20):
                 out.append(E.Case("g%d" % i, case_init_pair(tag, pad=rng.range(0, 300)) if rng.chance(1, 3) else
@@ -1198,6 +1495,14 @@ class C18(Prop):
         gen("fillers3000", fail_kind="index", depth=1, nchild=2, nbase=0, binary=False, prepad=("n", 1))
         for k in ("funlit", "funlit2", "funlitml", "longwrap", "longarr", "multi", "macrodef", "macrouse", "strml"):
             gen("kind-" + k, fail_kind=k, depth=1, nchild=2, nbase=1, binary=True)
+        # function literals (plain, nested, spanning lines) whose code sits in an INCLUDED file: deepest include, an include
+        # that is resumed behind a nested one, the include of an inherited program; fresh and from the saved binary
+        for i, (k, kw) in enumerate((("funlit", dict(depth=2, nchild=2, nbase=0, fail_slot=2)), ("funlit2", dict(depth=3, nchild=3, nbase=0, fail_slot=3)),
+                                     ("funlitml", dict(depth=3, nchild=3, nbase=0, fail_slot=4)), ("funlit2", dict(depth=1, nchild=2, nbase=2, bdepth=2, fail_slot=2, binary=True)),
+                                     ("funlitml", dict(depth=2, nchild=2, nbase=1, bdepth=1, fail_slot=1, binary=True, other=True)),
+                                     ("funlit", dict(depth=2, nchild=3, nbase=0, fail_slot=1, ginc=True, tails=["nl", "oneline-nonl", "nonl"])))):
+            kw.setdefault("binary", False)
+            gen("funlit-in-include-%d" % i, fail_kind=k, **kw)
         # the failing statement / a call site on the LAST line of a file: with and without a newline at the end of the
         # file, trailing blank lines, a file that is one line, an #include as the last line of its parent
         LL = [("main-nonl", dict(depth=0, nchild=2, nbase=0, tails=["oneline-nonl"])),
@@ -1262,35 +1567,84 @@ class C18(Prop):
         mk("manyruns-3000", case_manyruns("b_runs3k", 3000, tail=50), fail="div", long=1)
         mk("manyruns-below-64k", case_manyruns("b_runs21k", 21000, tail=20), fail="div", long=1)
         mk("manyruns-above-64k", case_manyruns("b_runs22k", 21900, tail=100), fail="div", long=1)
+        for i, k in enumerate(sorted(DIAGS)):
+            mk("diag-%s-main" % k, case_diag("b_dg_%s_0" % k, k, 0), fail="compile-error")
+            mk("diag-%s-inc%d" % (k, 1 + i % 3), case_diag("b_dg_%s_i" % k, k, 1 + i % 3), fail="compile-error")
         mk("bigtable-12k", case_bigtable("b_bigt12", 8, 500, 40, nincl=10), fail="div", long=1)
         mk("program-too-large", case_toolarge("b_toolarge"), fail="compile-error")
         mk("ginc-init", ["mode ginc"] + case_init("b_ginc_init", pad=5, funcs=1), fail="init")
         mk("ginc-multi-include", ["mode ginc"] + case_multi_include("b_ginc_mi", "back"), fail="reinclude")
-        g = Gen(rng, "b_wide", warn=False, ginc=False)
-        mk("wide70000", g.build(fail_kind="div", depth=0, nchild=1, nbase=0, binary=False, prepad=("n", 70000), kind="wide",
-                                other=False, override=False, via="apply", rep=1),
-           **g.meta)
+        # 16 bit absolute lines: the unit is accepted up to 65535 absolute lines and refused beyond (fix of finding C18-F3)
+        for name, kw in (("lines-65535-accepted", dict(total=65535)), ("lines-65536-refused", dict(total=65536)),
+                         ("lines-65535-include", dict(total=65535, in_include=30000)),
+                         ("lines-65536-include-refused", dict(total=65536, in_include=40000)),
+                         ("lines-70040-refused", dict(total=70040, fail_early=True)),
+                         ("lines-65500-early", dict(total=65500, fail_early=True))):
+            mk(name, case_linecount("b_" + name.replace("-", "_"), **kw), fail="div" if kw["total"] <= 65535 else "compile-error")
         mk("init", case_init("b_init"), fail="init")
         mk("init-after-functions", case_init("b_init2", pad=40, funcs=3), fail="init")
         mk("init-same-line-as-function", case_init("b_init5", pad=4, funcs=1, sameline=True), fail="init")
         mk("init-same-line-only", case_init("b_init6", pad=0, funcs=0, sameline=True), fail="init")
+        mk("init-big-block", case_init_big("b_init8"), fail="init")
+        for pf in (470, 990, 2010):
+            mk("init-block-grows-program-%d" % pf, case_init_big("b_initg%d" % pf, nlines=10, nterms=30, prefill=pf), fail="init")
+        mk("init-big-block-far", case_init_big("b_init9", nlines=12, nterms=40, pad=300), fail="init")
+        mk("after-failed-compile", case_after_failed_compile("b_afc"), fail="div")
+        mk("after-fatal-in-include", case_after_fatal_in_include("b_afi"), fail="div")
+        mk("after-fatal-in-include-3", case_after_fatal_in_include("b_afi3", depth=3), fail="div")
+        mk("after-failed-compile-3", case_after_failed_compile("b_afc3", nfun=5), fail="div")
         mk("init-same-line-twice", case_init("b_init7", pad=2, funcs=1, sameline=2), fail="init")
         mk("init-after-other-compile", case_init_pair("b_init3", pad=3), fail="init")
         mk("init-after-other-compile-far", case_init_pair("b_init4", pad=300), fail="init")
         for v in ("again", "self", "back"):
             mk("multi-include-" + v, case_multi_include("b_mi_" + v, v), fail="reinclude")
             mk("multi-include-pad-" + v, case_multi_include("b_mip_" + v, v, rng), fail="reinclude")
+        # the earlier inclusion lies at the first / a middle / the last entries of the include history
+        for name, nf, pos, failing in (("first-last", 24, [0, 24], 1), ("first-mid-last", 30, [0, 15, 30], 2), ("adjacent", 20, [10, 10], 1),
+                                       ("late-pair", 40, [38, 40], 1), ("mid-fails", 16, [2, 9, 16], 1), ("five", 12, [0, 3, 6, 9, 12], 4),
+                                       ("early-pair", 40, [1, 3], 1)):
+            mk("include-history-" + name, case_include_history("b_ih_" + name.replace("-", "_"), nf, pos, failing), fail="reinclude")
         mk("reinclude-second", case_reinclude("b_reinc"), fail="reinclude")
         mk("reinclude-first", case_reinclude("b_reinc1", first_ok=True), fail="reinclude-first")
         return B
 
+    def frozen_texts(self):
+        """the frozen copies `def exp<Region> : List String := [...]` of NV/C18/SourceTexts*.lean"""
+        out = {}
+        for fn in ("SourceTexts.lean", "SourceTexts2.lean"):
+            t = open(os.path.join(E.VERIF, "lean/NV/C18", fn)).read()
+            for m in re.finditer(r"def exp(\w+) : List String := \[\n(.*?)\]\n", t, re.S):
+                items = re.findall(r'^\s*"((?:[^"\\]|\\.)*)",?$', m.group(2), re.M)
+                out["src" + m.group(1)] = [i.replace('\\"', '"').replace("\\\\", "\\") for i in items]
+        return out
+
+    def text_tie_report(self):
+        """which hand-modelled source region differs from the text the model was written from, and where: the Lean
+        obligations source_statements_agree(2) only say THAT a region changed"""
+        probs = []
+        try:
+            frozen = self.frozen_texts()
+            for name, lines in self.source_statements() + self.source_statements2():
+                exp = frozen.get(name)
+                if exp is None or exp == lines:
+                    continue
+                k = next((i for i in range(min(len(exp), len(lines))) if exp[i] != lines[i]), min(len(exp), len(lines)))
+                probs.append({"kind": "tie-broken", "name": "source-text:%s" % name,
+                              "detail": "statement %d of the region: source now `%s`, model written from `%s`" % (
+                                  k + 1, lines[k] if k < len(lines) else "<removed>", exp[k] if k < len(exp) else "<added>")})
+        except X.TieBroken as e:
+            probs.append({"kind": "tie-broken", "name": "source-text", "detail": str(e)})
+        return probs
+
     def extra_checks(self, ctx, tier, rng):
-        """the oracle's own positive / negative examples (lean/NV/C18/OracleTests.lean)"""
+        """the oracle's own positive / negative examples (lean/NV/C18/OracleTests.lean); a precise report for a changed
+        source region"""
+        probs = self.text_tie_report()
         p = E.run([E.nvdrive_exe(), "C18", "selftest"])
         if p.returncode == 0 and p.stdout.startswith("selftest ok"):
             self.selftest = p.stdout.strip()
-            return []
-        return [{"kind": "obligation-broken", "name": "oracle-selftest", "detail": (p.stdout + p.stderr)[-500:]}]
+            return probs
+        return probs + [{"kind": "obligation-broken", "name": "oracle-selftest", "detail": (p.stdout + p.stderr)[-500:]}]
 
     def histogram(self, cases, impl):
         h = {"binary_all_reloaded_from_binary": 0, "binary_some_recompiled": 0, "fail": {}, "calls": {}, "depth": {}, "slots": {}, "inherit": 0, "binary": 0, "caught": 0, "long": 0,
